@@ -172,14 +172,14 @@ def het_ops(ctx):
     r, th, ops = ctx.rng, ctx.thorough(), []
     for d in HET:
         for v in range(256): ops.append("cch gray8 %s %d" % (d, v))
-        full16 = th or d in ("rgb565", "ba332")
+        full16 = th          # quick tier: every 61st value plus the edges (all 65536 values in the thorough tier)
         for v in (range(65536) if full16 else list(range(0, 65536, 61)) + [65535, 32768, 255, 256, 257, 65534]): ops.append("cch gray16 %s %d" % (d, v))
         for _ in range(4000 if th else 600): ops.append("cch rgb8 %s %d %d %d" % (d, r.below(256), r.below(256), r.below(256)))
         for v in (0, 8, 128, 255): ops.append("cchA gray8 %s %d" % (d, v))          # the build with assertions
     for s_, ws in HET.items():
         n = [2 ** w for w in ws]
         allpx = [(a, b, c) for a in range(n[0]) for b in range(n[1]) for c in range(n[2])]
-        if len(allpx) > 256 and not (th or s_ == "rgb565"):
+        if len(allpx) > 256 and not th:
             allpx = [allpx[r.below(len(allpx))] for _ in range(3000)] + [(0, 0, 0), (n[0] - 1, n[1] - 1, n[2] - 1)]
         for d in ("rgb8", "gray8"):
             for p in allpx: ops.append("cch %s %s %d %d %d" % ((s_, d) + p))
